@@ -1,4 +1,190 @@
-(* Executable interface of the Tags layer (op codes 3200..3299). Stub until the layer is built. *)
-From A1 Require Import Base.Res.
+(* Executable interface of the Tags layer (op codes 3200..3299); mirrored by harness/a1h/src/tags.rs.
+
+   op 3201: is_set ext auto n (tc tn ty opt)*n m entry*m
+            ext  = -1 (no marker) | number of components written before `...`
+            tc   = -1 untagged | 0 UNIVERSAL | 1 APPLICATION | 2 context | 3 PRIVATE;  tn = number
+            ty   = 0..11 builtin | 20 ENUMERATED, 21 SEQUENCE, 22 SET written inline | 99 undefined name | 100+j entry j
+            opt  = 0 mandatory | 1 OPTIONAL | 2 DEFAULT
+            entry = tc tn kind [cext k (tc tn ty)*k]     kind 23 = CHOICE; references to later entries only
+   answer : 0 n order(n) tags(2n, wire order) std_optional extended_after(-1 none) own_class own_number
+            | 1 stage | 2 class | -2 malformed input *)
+From A1 Require Import Base.Res Front.Tags.
 Local Open Scope Z_scope.
-Definition run_tags (m : mode) (op : Z) (a : list Z) : list Z := [-1].
+
+Definition dec_tag (tc tn : Z) : option (option tag) :=
+  if tn <? 0 then None
+  else match tc with
+       | -1 => Some None
+       | 0 => Some (Some (Universal, Z.to_N tn))
+       | 1 => Some (Some (Application, Z.to_N tn))
+       | 2 => Some (Some (ContextSpecific, Z.to_N tn))
+       | 3 => Some (Some (Private, Z.to_N tn))
+       | _ => None
+       end.
+
+Definition dec_bkind (t : Z) : option bkind :=
+  match t with
+  | 0 => Some KBool | 1 => Some KInt | 2 => Some KOctets | 3 => Some KUtf8 | 4 => Some KNull | 5 => Some KBits
+  | 6 => Some KIa5 | 7 => Some KNumeric | 8 => Some KPrintable | 9 => Some KVisible | 10 => Some KSeqOf
+  | 11 => Some KSetOf | _ => None
+  end.
+
+(* [lo]: references must point to an entry with index > lo; [m]: number of entries *)
+Definition dec_ty (inline : bool) (lo m t : Z) : option aty :=
+  match dec_bkind t with
+  | Some k => Some (TBuiltin k)
+  | None =>
+      if t =? 99 then Some (TRef RUndef)
+      else if (100 <=? t) then
+        if (lo <? t - 100) && (t - 100 <? m) then Some (TRef (RIdx (Z.to_nat (t - 100)))) else None
+      else if inline then
+        match t with
+        | 20 => Some (TConstr KEnum) | 21 => Some (TConstr KSeq) | 22 => Some (TConstr KSet) | _ => None
+        end
+      else None
+  end.
+
+Definition dec_pres (o : Z) : option presence :=
+  match o with 0 => Some Mandatory | 1 => Some Optional | 2 => Some Default | _ => None end.
+
+(* raw components first: their type codes can only be checked once m is known *)
+Fixpoint take_comps (n : nat) (a : list Z) : option (list (option tag * Z * presence) * list Z) :=
+  match n with
+  | O => Some ([], a)
+  | S n' =>
+      match a with
+      | tc :: tn :: ty :: o :: a' =>
+          match dec_tag tc tn, dec_pres o with
+          | Some tg, Some p =>
+              match take_comps n' a' with
+              | Some (cs, r) => Some ((tg, ty, p) :: cs, r)
+              | None => None
+              end
+          | _, _ => None
+          end
+      | _ => None
+      end
+  end.
+
+Fixpoint take_alts (k : nat) (i m : Z) (a : list Z) : option (list (option tag * aty) * list Z) :=
+  match k with
+  | O => Some ([], a)
+  | S k' =>
+      match a with
+      | tc :: tn :: ty :: a' =>
+          match dec_tag tc tn, dec_ty false i m ty with
+          | Some tg, Some t =>
+              match take_alts k' i m a' with
+              | Some (al, r) => Some ((tg, t) :: al, r)
+              | None => None
+              end
+          | _, _ => None
+          end
+      | _ => None
+      end
+  end.
+
+Fixpoint take_entries (cnt : nat) (i m : Z) (a : list Z) : option (env * list Z) :=
+  match cnt with
+  | O => Some ([], a)
+  | S cnt' =>
+      match a with
+      | tc :: tn :: kind :: a' =>
+          match dec_tag tc tn with
+          | None => None
+          | Some tg =>
+              let entry :=
+                if kind =? 23 then
+                  match a' with
+                  | cext :: k :: a'' =>
+                      if (k <? 1) || negb ((cext =? -1) || ((1 <=? cext) && (cext <=? k)))
+                         || (Z.of_nat (length a'') <? k) then None
+                      else
+                        match take_alts (Z.to_nat k) i m a'' with
+                        | Some (al, r) =>
+                            Some (TChoice (if cext =? -1 then None else Some (Z.to_nat cext - 1)%nat) al, r)
+                        | None => None
+                        end
+                  | _ => None
+                  end
+                else
+                  match dec_ty true i m kind with
+                  | Some t => Some (t, a')
+                  | None => None
+                  end in
+              match entry with
+              | None => None
+              | Some (t, r) =>
+                  match take_entries cnt' (i + 1) m r with
+                  | Some (e, r') => Some ({| d_tag := tg; d_ty := t |} :: e, r')
+                  | None => None
+                  end
+              end
+          end
+      | _ => None
+      end
+  end.
+
+Fixpoint finish_comps (m : Z) (l : list (option tag * Z * presence)) : option (list comp) :=
+  match l with
+  | [] => Some []
+  | (tg, ty, p) :: l' =>
+      match dec_ty true (-1) m ty, finish_comps m l' with
+      | Some t, Some cs => Some ({| c_tag := tg; c_ty := t; c_pres := p |} :: cs)
+      | _, _ => None
+      end
+  end.
+
+Definition decode (a : list Z) : option sdef :=
+  match a with
+  | is_set :: ext :: auto :: n :: a1 =>
+      if negb ((0 <=? is_set) && (is_set <=? 1) && (0 <=? auto) && (auto <=? 1) && (0 <=? n)
+               && (-1 <=? ext) && (ext <=? n)) || (Z.of_nat (length a1) <? n) then None
+      else
+        match take_comps (Z.to_nat n) a1 with
+        | Some (raw, m :: a2) =>
+            if (m <? 0) || (Z.of_nat (length a2) <? m) then None
+            else
+              match take_entries (Z.to_nat m) 0 m a2 with
+              | Some (e, []) =>
+                  match finish_comps m raw with
+                  | Some cs =>
+                      Some {| s_set := is_set =? 1;
+                              s_marker := if ext =? -1 then None else Some (Z.to_nat ext);
+                              s_auto := auto =? 1;
+                              s_own := None;
+                              s_comps := cs;
+                              s_env := e |}
+                  | None => None
+                  end
+              | _ => None
+              end
+        | _ => None
+        end
+  | _ => None
+  end.
+
+Definition z_of_class (c : tclass) : Z := Z.of_N (class_code c).
+Definition enc_tag (t : tag) : list Z := [z_of_class (fst t); Z.of_N (snd t)].
+
+Definition enc_layout (r : res layout) : list Z :=
+  match r with
+  | Ok l =>
+      0 :: Z.of_nat (length (l_wire l))
+        :: map (fun f => Z.of_nat (rf_idx f)) (l_wire l)
+        ++ flat_map enc_tag (l_tags l)
+        ++ [Z.of_nat (l_std_optional l);
+            match l_extended_after l with Some x => Z.of_nat x | None => -1 end]
+        ++ enc_tag (l_own l)
+  | Err e => [1; Z.of_N e]
+  | Panic p => [2; Z.of_N p]
+  end.
+
+Definition run_tags (m : mode) (op : Z) (a : list Z) : list Z :=
+  match op with
+  | 3201 => match decode a with
+            | Some d => enc_layout (layout_of d)
+            | None => [-2]
+            end
+  | _ => [-1]
+  end.
